@@ -59,6 +59,11 @@ module Coq__1 = struct
 end
 include Coq__1
 
+(** val eqb : bool -> bool -> bool **)
+
+let eqb b1 b2 =
+  if b1 then b2 else if b2 then false else true
+
 module Nat =
  struct
   (** val eqb : nat -> nat -> bool **)
@@ -72,6 +77,27 @@ module Nat =
                | O -> false
                | S m' -> eqb n' m')
  end
+
+(** val nth : nat -> 'a1 list -> 'a1 -> 'a1 **)
+
+let rec nth n0 l default =
+  match n0 with
+  | O -> (match l with
+          | [] -> default
+          | x :: _ -> x)
+  | S m -> (match l with
+            | [] -> default
+            | _ :: t -> nth m t default)
+
+(** val nth_error : 'a1 list -> nat -> 'a1 option **)
+
+let rec nth_error l = function
+| O -> (match l with
+        | [] -> None
+        | x :: _ -> Some x)
+| S n1 -> (match l with
+           | [] -> None
+           | _ :: l0 -> nth_error l0 n1)
 
 (** val rev : 'a1 list -> 'a1 list **)
 
@@ -92,6 +118,12 @@ let rec concat = function
 | [] -> []
 | x :: l0 -> app x (concat l0)
 
+(** val map : ('a1 -> 'a2) -> 'a1 list -> 'a2 list **)
+
+let rec map f = function
+| [] -> []
+| a :: t -> (f a) :: (map f t)
+
 (** val flat_map : ('a1 -> 'a2 list) -> 'a1 list -> 'a2 list **)
 
 let rec flat_map f = function
@@ -104,6 +136,12 @@ let rec fold_left f l a0 =
   match l with
   | [] -> a0
   | b :: t -> fold_left f t (f a0 b)
+
+(** val existsb : ('a1 -> bool) -> 'a1 list -> bool **)
+
+let rec existsb f = function
+| [] -> false
+| a :: l0 -> (||) (f a) (existsb f l0)
 
 (** val firstn : nat -> 'a1 list -> 'a1 list **)
 
@@ -199,6 +237,13 @@ module Coq_Pos =
   | XI p -> XI (XO p)
   | XO p -> XI (pred_double p)
   | XH -> XH
+
+  (** val pred_N : positive -> n **)
+
+  let pred_N = function
+  | XI p -> Npos (XO p)
+  | XO p -> Npos (pred_double p)
+  | XH -> N0
 
   type mask = Pos.mask =
   | IsNul
@@ -363,6 +408,20 @@ module Coq_Pos =
     | XH -> (match q with
              | XO _ -> N0
              | _ -> Npos XH)
+
+  (** val testbit : positive -> n -> bool **)
+
+  let rec testbit p n0 =
+    match p with
+    | XI p0 -> (match n0 with
+                | N0 -> true
+                | Npos n1 -> testbit p0 (pred_N n1))
+    | XO p0 -> (match n0 with
+                | N0 -> false
+                | Npos n1 -> testbit p0 (pred_N n1))
+    | XH -> (match n0 with
+             | N0 -> true
+             | Npos _ -> false)
 
   (** val iter_op : ('a1 -> 'a1 -> 'a1) -> positive -> 'a1 -> 'a1 **)
 
@@ -545,6 +604,13 @@ module N =
   let shiftr a = function
   | N0 -> a
   | Npos p -> Coq_Pos.iter div2 a p
+
+  (** val testbit : n -> n -> bool **)
+
+  let testbit a n0 =
+    match a with
+    | N0 -> false
+    | Npos p -> Coq_Pos.testbit p n0
 
   (** val to_nat : n -> nat **)
 
@@ -2144,3 +2210,1503 @@ let block =
 let write_struct t v =
   let (e, rs) = eruns enc_init (write_val t v) in
   ((stream (flush e)), (fold_left N.add rs N0))
+
+(** val list_eqb : ('a1 -> 'a1 -> bool) -> 'a1 list -> 'a1 list -> bool **)
+
+let rec list_eqb eq a b =
+  match a with
+  | [] -> (match b with
+           | [] -> true
+           | _ :: _ -> false)
+  | x :: a' ->
+    (match b with
+     | [] -> false
+     | y :: b' -> (&&) (eq x y) (list_eqb eq a' b'))
+
+(** val val_eqb : val0 -> val0 -> bool **)
+
+let rec val_eqb a b =
+  match a with
+  | VN x -> (match b with
+             | VN y -> N.eqb x y
+             | _ -> false)
+  | VZ x -> (match b with
+             | VZ y -> Z.eqb x y
+             | _ -> false)
+  | VB x -> (match b with
+             | VB y -> eqb x y
+             | _ -> false)
+  | VS x -> (match b with
+             | VS y -> list_eqb N.eqb x y
+             | _ -> false)
+  | VL xs ->
+    (match b with
+     | VL ys ->
+       let rec go l1 l2 =
+         match l1 with
+         | [] -> (match l2 with
+                  | [] -> true
+                  | _ :: _ -> false)
+         | x :: l1' ->
+           (match l2 with
+            | [] -> false
+            | y :: l2' -> (&&) (val_eqb x y) (go l1' l2'))
+       in go xs ys
+     | _ -> false)
+  | VR xs ->
+    (match b with
+     | VR ys ->
+       let rec go l1 l2 =
+         match l1 with
+         | [] -> (match l2 with
+                  | [] -> true
+                  | _ :: _ -> false)
+         | o :: l1' ->
+           (match o with
+            | Some x ->
+              (match l2 with
+               | [] -> false
+               | o0 :: l2' ->
+                 (match o0 with
+                  | Some y -> (&&) (val_eqb x y) (go l1' l2')
+                  | None -> false))
+            | None ->
+              (match l2 with
+               | [] -> false
+               | o0 :: l2' ->
+                 (match o0 with
+                  | Some _ -> false
+                  | None -> go l1' l2')))
+       in go xs ys
+     | _ -> false)
+
+(** val tfind_from : n -> val0 list -> val0 -> n option **)
+
+let rec tfind_from i t v =
+  match t with
+  | [] -> None
+  | x :: t' ->
+    if val_eqb x v then Some i else tfind_from (N.add i (Npos XH)) t' v
+
+(** val tfind : val0 list -> val0 -> n option **)
+
+let tfind t v =
+  tfind_from N0 t v
+
+(** val tadd : val0 list -> val0 -> val0 list * n **)
+
+let tadd t v =
+  match tfind t v with
+  | Some i -> (t, i)
+  | None -> ((app t (v :: [])), (N.of_nat (length t)))
+
+type tid =
+| T_ip
+| T_ct
+| T_nr
+| T_sig
+| T_qlist
+| T_qrr
+| T_rrlist
+| T_rr
+| T_mmd
+
+type tables = { t_ip : val0 list; t_ct : val0 list; t_nr : val0 list;
+                t_sig : val0 list; t_qlist : val0 list; t_qrr : val0 list;
+                t_rrlist : val0 list; t_rr : val0 list; t_mmd : val0 list }
+
+(** val tables_empty : tables **)
+
+let tables_empty =
+  { t_ip = []; t_ct = []; t_nr = []; t_sig = []; t_qlist = []; t_qrr = [];
+    t_rrlist = []; t_rr = []; t_mmd = [] }
+
+(** val tget : tables -> tid -> val0 list **)
+
+let tget tb = function
+| T_ip -> tb.t_ip
+| T_ct -> tb.t_ct
+| T_nr -> tb.t_nr
+| T_sig -> tb.t_sig
+| T_qlist -> tb.t_qlist
+| T_qrr -> tb.t_qrr
+| T_rrlist -> tb.t_rrlist
+| T_rr -> tb.t_rr
+| T_mmd -> tb.t_mmd
+
+(** val tset : tables -> tid -> val0 list -> tables **)
+
+let tset tb i l =
+  match i with
+  | T_ip ->
+    { t_ip = l; t_ct = tb.t_ct; t_nr = tb.t_nr; t_sig = tb.t_sig; t_qlist =
+      tb.t_qlist; t_qrr = tb.t_qrr; t_rrlist = tb.t_rrlist; t_rr = tb.t_rr;
+      t_mmd = tb.t_mmd }
+  | T_ct ->
+    { t_ip = tb.t_ip; t_ct = l; t_nr = tb.t_nr; t_sig = tb.t_sig; t_qlist =
+      tb.t_qlist; t_qrr = tb.t_qrr; t_rrlist = tb.t_rrlist; t_rr = tb.t_rr;
+      t_mmd = tb.t_mmd }
+  | T_nr ->
+    { t_ip = tb.t_ip; t_ct = tb.t_ct; t_nr = l; t_sig = tb.t_sig; t_qlist =
+      tb.t_qlist; t_qrr = tb.t_qrr; t_rrlist = tb.t_rrlist; t_rr = tb.t_rr;
+      t_mmd = tb.t_mmd }
+  | T_sig ->
+    { t_ip = tb.t_ip; t_ct = tb.t_ct; t_nr = tb.t_nr; t_sig = l; t_qlist =
+      tb.t_qlist; t_qrr = tb.t_qrr; t_rrlist = tb.t_rrlist; t_rr = tb.t_rr;
+      t_mmd = tb.t_mmd }
+  | T_qlist ->
+    { t_ip = tb.t_ip; t_ct = tb.t_ct; t_nr = tb.t_nr; t_sig = tb.t_sig;
+      t_qlist = l; t_qrr = tb.t_qrr; t_rrlist = tb.t_rrlist; t_rr = tb.t_rr;
+      t_mmd = tb.t_mmd }
+  | T_qrr ->
+    { t_ip = tb.t_ip; t_ct = tb.t_ct; t_nr = tb.t_nr; t_sig = tb.t_sig;
+      t_qlist = tb.t_qlist; t_qrr = l; t_rrlist = tb.t_rrlist; t_rr =
+      tb.t_rr; t_mmd = tb.t_mmd }
+  | T_rrlist ->
+    { t_ip = tb.t_ip; t_ct = tb.t_ct; t_nr = tb.t_nr; t_sig = tb.t_sig;
+      t_qlist = tb.t_qlist; t_qrr = tb.t_qrr; t_rrlist = l; t_rr = tb.t_rr;
+      t_mmd = tb.t_mmd }
+  | T_rr ->
+    { t_ip = tb.t_ip; t_ct = tb.t_ct; t_nr = tb.t_nr; t_sig = tb.t_sig;
+      t_qlist = tb.t_qlist; t_qrr = tb.t_qrr; t_rrlist = tb.t_rrlist; t_rr =
+      l; t_mmd = tb.t_mmd }
+  | T_mmd ->
+    { t_ip = tb.t_ip; t_ct = tb.t_ct; t_nr = tb.t_nr; t_sig = tb.t_sig;
+      t_qlist = tb.t_qlist; t_qrr = tb.t_qrr; t_rrlist = tb.t_rrlist; t_rr =
+      tb.t_rr; t_mmd = l }
+
+(** val add_to : tables -> tid -> val0 -> tables * n **)
+
+let add_to tb i v =
+  let (l, ix) = tadd (tget tb i) v in ((tset tb i l), ix)
+
+(** val via : tables -> tid -> val0 option -> tables * val0 option **)
+
+let via tb i = function
+| Some v -> let (tb', ix) = add_to tb i v in (tb', (Some (VN ix)))
+| None -> (tb, None)
+
+type bparams = { bp_tps : n; bp_max : n; h_qr : n; h_sig : n; h_rr : 
+                 n; h_other : n }
+
+(** val nth_o : val0 option list -> nat -> val0 option **)
+
+let nth_o l i =
+  nth i l None
+
+(** val vn : val0 option -> n **)
+
+let vn = function
+| Some v -> (match v with
+             | VN n0 -> n0
+             | _ -> N0)
+| None -> N0
+
+(** val bp_of_val : val0 -> bparams **)
+
+let bp_of_val = function
+| VR fs ->
+  (match fs with
+   | [] ->
+     { bp_tps = N0; bp_max = N0; h_qr = N0; h_sig = N0; h_rr = N0; h_other =
+       N0 }
+   | o :: _ ->
+     (match o with
+      | Some v ->
+        (match v with
+         | VR sp ->
+           let hints =
+             match nth_o sp (S (S O)) with
+             | Some v0 ->
+               (match v0 with
+                | VN _ -> []
+                | VZ _ -> []
+                | VB _ -> []
+                | VS _ -> []
+                | VL _ -> []
+                | VR h -> h)
+             | None -> []
+           in
+           { bp_tps = (vn (nth_o sp O)); bp_max = (vn (nth_o sp (S O)));
+           h_qr = (vn (nth_o hints O)); h_sig = (vn (nth_o hints (S O)));
+           h_rr = (vn (nth_o hints (S (S O)))); h_other =
+           (vn (nth_o hints (S (S (S O))))) }
+         | _ ->
+           { bp_tps = N0; bp_max = N0; h_qr = N0; h_sig = N0; h_rr = N0;
+             h_other = N0 })
+      | None ->
+        { bp_tps = N0; bp_max = N0; h_qr = N0; h_sig = N0; h_rr = N0;
+          h_other = N0 }))
+| _ ->
+  { bp_tps = N0; bp_max = N0; h_qr = N0; h_sig = N0; h_rr = N0; h_other = N0 }
+
+(** val bit : n -> n -> val0 option -> val0 option **)
+
+let bit h i ov =
+  if N.testbit h i then ov else None
+
+(** val filled : val0 option list -> bool **)
+
+let filled l =
+  existsb (fun o -> match o with
+                    | Some _ -> true
+                    | None -> false) l
+
+type blk = { b_earliest : ts; b_bpi : n; b_bp : bparams;
+             b_stats : val0 option; b_tb : tables; b_qrs : val0 list;
+             b_aecs : (val0 * n) list; b_mms : val0 list }
+
+(** val ts0 : ts **)
+
+let ts0 =
+  { secs = Z0; ticks = Z0 }
+
+(** val blk_new : bparams -> n -> blk **)
+
+let blk_new bp bpi =
+  { b_earliest = ts0; b_bpi = bpi; b_bp = bp; b_stats = None; b_tb =
+    tables_empty; b_qrs = []; b_aecs = []; b_mms = [] }
+
+(** val blk_clear : blk -> blk **)
+
+let blk_clear b =
+  { b_earliest = ts0; b_bpi = b.b_bpi; b_bp = b.b_bp; b_stats = None; b_tb =
+    tables_empty; b_qrs = []; b_aecs = []; b_mms = [] }
+
+(** val item_count : blk -> n **)
+
+let item_count b =
+  N.of_nat (add (add (length b.b_qrs) (length b.b_aecs)) (length b.b_mms))
+
+(** val blk_full : blk -> bool **)
+
+let blk_full b =
+  (||)
+    ((||) (N.leb b.b_bp.bp_max (N.of_nat (length b.b_qrs)))
+      (N.leb b.b_bp.bp_max (N.of_nat (length b.b_aecs))))
+    (N.leb b.b_bp.bp_max (N.of_nat (length b.b_mms)))
+
+(** val blk_set_bp : blk -> bparams -> n -> blk * bool **)
+
+let blk_set_bp b bp bpi =
+  if N.ltb N0 (item_count b)
+  then (b, false)
+  else ({ b_earliest = b.b_earliest; b_bpi = bpi; b_bp = bp; b_stats =
+         b.b_stats; b_tb = b.b_tb; b_qrs = b.b_qrs; b_aecs = b.b_aecs;
+         b_mms = b.b_mms }, true)
+
+(** val ts_of_val : val0 -> ts option **)
+
+let ts_of_val = function
+| VL xs ->
+  (match xs with
+   | [] -> None
+   | v0 :: l ->
+     (match v0 with
+      | VN s ->
+        (match l with
+         | [] -> None
+         | v1 :: l0 ->
+           (match v1 with
+            | VN k ->
+              (match l0 with
+               | [] -> Some { secs = (Z.of_N s); ticks = (Z.of_N k) }
+               | _ :: _ -> None)
+            | _ -> None))
+      | _ -> None))
+| _ -> None
+
+(** val upd_earliest : blk -> val0 option -> ts **)
+
+let upd_earliest b = function
+| Some tv ->
+  (match ts_of_val tv with
+   | Some t ->
+     if (||)
+          (match b.b_qrs with
+           | [] -> (match b.b_mms with
+                    | [] -> true
+                    | _ :: _ -> false)
+           | _ :: _ -> false) (ts_lt t b.b_earliest)
+     then t
+     else b.b_earliest
+   | None -> b.b_earliest)
+| None -> b.b_earliest
+
+(** val with_stats : val0 option -> val0 option -> val0 option **)
+
+let with_stats old new0 = match new0 with
+| Some _ -> new0
+| None -> old
+
+(** val rr_name : val0 -> val0 option **)
+
+let rr_name = function
+| VR l -> nth_o l O
+| _ -> None
+
+(** val rr_ct : val0 -> val0 option **)
+
+let rr_ct = function
+| VR l -> nth_o l (S O)
+| _ -> None
+
+(** val rr_ttl : val0 -> val0 option **)
+
+let rr_ttl = function
+| VR l -> nth_o l (S (S O))
+| _ -> None
+
+(** val rr_rdata : val0 -> val0 option **)
+
+let rr_rdata = function
+| VR l -> nth_o l (S (S (S O)))
+| _ -> None
+
+(** val oval : val0 option -> val0 **)
+
+let oval = function
+| Some v -> v
+| None -> VN N0
+
+(** val add_questions :
+    tables -> val0 list -> val0 list -> tables * val0 list **)
+
+let rec add_questions tb gl racc =
+  match gl with
+  | [] -> (tb, (frev racc))
+  | g :: gl' ->
+    let (tb1, ni) = add_to tb T_nr (oval (rr_name g)) in
+    let (tb2, ci) = add_to tb1 T_ct (oval (rr_ct g)) in
+    let (tb3, qi) =
+      add_to tb2 T_qrr (VR ((Some (VN ni)) :: ((Some (VN ci)) :: [])))
+    in
+    add_questions tb3 gl' ((VN qi) :: racc)
+
+(** val add_generic_qlist : tables -> val0 list -> tables * n **)
+
+let add_generic_qlist tb gl =
+  let (tb1, ixs) = add_questions tb gl [] in add_to tb1 T_qlist (VL ixs)
+
+(** val add_rrs :
+    n -> tables -> val0 list -> val0 list -> tables * val0 list **)
+
+let rec add_rrs hrr tb gl racc =
+  match gl with
+  | [] -> (tb, (frev racc))
+  | g :: gl' ->
+    let (tb1, ni) = add_to tb T_nr (oval (rr_name g)) in
+    let (tb2, ci) = add_to tb1 T_ct (oval (rr_ct g)) in
+    let ttl = bit hrr N0 (rr_ttl g) in
+    let (tb3, rd) = via tb2 T_nr (bit hrr (Npos XH) (rr_rdata g)) in
+    let (tb4, ri) =
+      add_to tb3 T_rr (VR ((Some (VN ni)) :: ((Some (VN
+        ci)) :: (ttl :: (rd :: [])))))
+    in
+    add_rrs hrr tb4 gl' ((VN ri) :: racc)
+
+(** val add_generic_rrlist : n -> tables -> val0 list -> tables * n **)
+
+let add_generic_rrlist hrr tb gl =
+  let (tb1, ixs) = add_rrs hrr tb gl [] in add_to tb1 T_rrlist (VL ixs)
+
+(** val section : val0 option -> val0 list option **)
+
+let section = function
+| Some v ->
+  (match v with
+   | VL xs -> (match xs with
+               | [] -> None
+               | x :: l -> Some (x :: l))
+   | _ -> None)
+| None -> None
+
+(** val via_qlist :
+    tables -> n -> n -> val0 option -> tables * val0 option **)
+
+let via_qlist tb h b ov =
+  if N.testbit h b
+  then (match section ov with
+        | Some gl ->
+          let (tb', ix) = add_generic_qlist tb gl in (tb', (Some (VN ix)))
+        | None -> (tb, None))
+  else (tb, None)
+
+(** val via_rrlist :
+    n -> tables -> n -> n -> val0 option -> tables * val0 option **)
+
+let via_rrlist hrr tb h b ov =
+  if N.testbit h b
+  then (match section ov with
+        | Some gl ->
+          let (tb', ix) = add_generic_rrlist hrr tb gl in
+          (tb', (Some (VN ix)))
+        | None -> (tb, None))
+  else (tb, None)
+
+(** val build_qr :
+    bparams -> val0 option list -> tables -> tables * val0 option list **)
+
+let build_qr bp gr tb =
+  let g = nth_o gr in
+  let hq = bp.h_qr in
+  let hs = bp.h_sig in
+  let hr = bp.h_rr in
+  let s0 = bit hq N0 (g O) in
+  let (tb0, s1) = via tb T_ip (bit hq (Npos XH) (g (S O))) in
+  let s2 = bit hq (Npos (XO XH)) (g (S (S O))) in
+  let s3 = bit hq (Npos (XI XH)) (g (S (S (S O)))) in
+  let (tb1, s4) =
+    if N.testbit hq (Npos (XO (XO XH)))
+    then let (tb1, q0) = via tb0 T_ip (bit hs N0 (g (S (S (S (S O)))))) in
+         let (tb2, q8) =
+           via tb1 T_ct
+             (bit hs (Npos (XO (XO (XO XH))))
+               (g (S (S (S (S (S (S (S (S (S (S (S (S O))))))))))))))
+         in
+         let (tb3, q15) =
+           via tb2 T_nr
+             (bit hs (Npos (XI (XI (XI XH))))
+               (g (S (S (S (S (S (S (S (S (S (S (S (S (S (S (S (S (S (S (S
+                 O)))))))))))))))))))))
+         in
+         let sig0 =
+           q0 :: ((bit hs (Npos XH) (g (S (S (S (S (S O))))))) :: ((bit hs
+                                                                    (Npos (XO
+                                                                    XH))
+                                                                    (g (S (S
+                                                                    (S (S (S
+                                                                    (S
+                                                                    O)))))))) :: (
+           (bit hs (Npos (XI XH)) (g (S (S (S (S (S (S (S O))))))))) :: (
+           (bit hs (Npos (XO (XO XH))) (g (S (S (S (S (S (S (S (S O)))))))))) :: (
+           (bit hs (Npos (XI (XO XH)))
+             (g (S (S (S (S (S (S (S (S (S O))))))))))) :: ((bit hs (Npos (XO
+                                                              (XI XH)))
+                                                              (g (S (S (S (S
+                                                                (S (S (S (S
+                                                                (S (S
+                                                                O)))))))))))) :: (
+           (bit hs (Npos (XI (XI XH)))
+             (g (S (S (S (S (S (S (S (S (S (S (S O))))))))))))) :: (q8 :: (
+           (bit hs (Npos (XI (XO (XO XH))))
+             (g (S (S (S (S (S (S (S (S (S (S (S (S (S O))))))))))))))) :: (
+           (bit hs (Npos (XO (XI (XO XH))))
+             (g (S (S (S (S (S (S (S (S (S (S (S (S (S (S O)))))))))))))))) :: (
+           (bit hs (Npos (XI (XI (XO XH))))
+             (g (S (S (S (S (S (S (S (S (S (S (S (S (S (S (S O))))))))))))))))) :: (
+           (bit hs (Npos (XO (XO (XI XH))))
+             (g (S (S (S (S (S (S (S (S (S (S (S (S (S (S (S (S
+               O)))))))))))))))))) :: ((bit hs (Npos (XI (XO (XI XH))))
+                                         (g (S (S (S (S (S (S (S (S (S (S (S
+                                           (S (S (S (S (S (S
+                                           O))))))))))))))))))) :: ((bit hs
+                                                                    (Npos (XO
+                                                                    (XI (XI
+                                                                    XH))))
+                                                                    (g (S (S
+                                                                    (S (S (S
+                                                                    (S (S (S
+                                                                    (S (S (S
+                                                                    (S (S (S
+                                                                    (S (S (S
+                                                                    (S
+                                                                    O)))))))))))))))))))) :: (q15 :: (
+           (bit hs (Npos (XO (XO (XO (XO XH)))))
+             (g (S (S (S (S (S (S (S (S (S (S (S (S (S (S (S (S (S (S (S (S
+               O)))))))))))))))))))))) :: []))))))))))))))))
+         in
+         if filled sig0
+         then let (tb4, ix) = add_to tb3 T_sig (VR sig0) in
+              (tb4, (Some (VN ix)))
+         else (tb3, None)
+    else (tb0, None)
+  in
+  let s5 =
+    bit hq (Npos (XI (XO XH)))
+      (g (S (S (S (S (S (S (S (S (S (S (S (S (S (S (S (S (S (S (S (S (S
+        O))))))))))))))))))))))
+  in
+  let s6 =
+    bit hq (Npos (XO (XI XH)))
+      (g (S (S (S (S (S (S (S (S (S (S (S (S (S (S (S (S (S (S (S (S (S (S
+        O)))))))))))))))))))))))
+  in
+  let (tb2, s7) =
+    via tb1 T_nr
+      (bit hq (Npos (XI (XI XH)))
+        (g (S (S (S (S (S (S (S (S (S (S (S (S (S (S (S (S (S (S (S (S (S (S
+          (S O)))))))))))))))))))))))))
+  in
+  let s8 =
+    bit hq (Npos (XO (XO (XO XH))))
+      (g (S (S (S (S (S (S (S (S (S (S (S (S (S (S (S (S (S (S (S (S (S (S (S
+        (S O)))))))))))))))))))))))))
+  in
+  let s9 =
+    bit hq (Npos (XI (XO (XO XH))))
+      (g (S (S (S (S (S (S (S (S (S (S (S (S (S (S (S (S (S (S (S (S (S (S (S
+        (S (S O))))))))))))))))))))))))))
+  in
+  let (tb3, s10) =
+    if N.testbit hq (Npos (XO (XI (XO XH))))
+    then let (tb3, bw) =
+           via tb2 T_nr
+             (g (S (S (S (S (S (S (S (S (S (S (S (S (S (S (S (S (S (S (S (S
+               (S (S (S (S (S (S O)))))))))))))))))))))))))))
+         in
+         let rpd =
+           bw :: ((g (S (S (S (S (S (S (S (S (S (S (S (S (S (S (S (S (S (S (S
+                    (S (S (S (S (S (S (S (S O)))))))))))))))))))))))))))) :: [])
+         in
+         if filled rpd then (tb3, (Some (VR rpd))) else (tb3, None)
+    else (tb2, None)
+  in
+  let (tb4, e0) =
+    via_qlist tb3 hq (Npos (XI (XI (XO XH))))
+      (g (S (S (S (S (S (S (S (S (S (S (S (S (S (S (S (S (S (S (S (S (S (S (S
+        (S (S (S (S (S O)))))))))))))))))))))))))))))
+  in
+  let (tb5, e1) =
+    via_rrlist hr tb4 hq (Npos (XO (XO (XI XH))))
+      (g (S (S (S (S (S (S (S (S (S (S (S (S (S (S (S (S (S (S (S (S (S (S (S
+        (S (S (S (S (S (S O))))))))))))))))))))))))))))))
+  in
+  let (tb6, e2) =
+    via_rrlist hr tb5 hq (Npos (XI (XO (XI XH))))
+      (g (S (S (S (S (S (S (S (S (S (S (S (S (S (S (S (S (S (S (S (S (S (S (S
+        (S (S (S (S (S (S (S O)))))))))))))))))))))))))))))))
+  in
+  let (tb7, e3) =
+    via_rrlist hr tb6 hq (Npos (XO (XI (XI XH))))
+      (g (S (S (S (S (S (S (S (S (S (S (S (S (S (S (S (S (S (S (S (S (S (S (S
+        (S (S (S (S (S (S (S (S O))))))))))))))))))))))))))))))))
+  in
+  let qe = e0 :: (e1 :: (e2 :: (e3 :: []))) in
+  let s11 = if filled qe then Some (VR qe) else None in
+  let (tb8, r0) =
+    via_qlist tb7 hq (Npos (XI (XI (XO XH))))
+      (g (S (S (S (S (S (S (S (S (S (S (S (S (S (S (S (S (S (S (S (S (S (S (S
+        (S (S (S (S (S (S (S (S (S O)))))))))))))))))))))))))))))))))
+  in
+  let (tb9, r1) =
+    via_rrlist hr tb8 hq (Npos (XI (XI (XI XH))))
+      (g (S (S (S (S (S (S (S (S (S (S (S (S (S (S (S (S (S (S (S (S (S (S (S
+        (S (S (S (S (S (S (S (S (S (S O))))))))))))))))))))))))))))))))))
+  in
+  let (tb10, r2) =
+    via_rrlist hr tb9 hq (Npos (XO (XO (XO (XO XH)))))
+      (g (S (S (S (S (S (S (S (S (S (S (S (S (S (S (S (S (S (S (S (S (S (S (S
+        (S (S (S (S (S (S (S (S (S (S (S O)))))))))))))))))))))))))))))))))))
+  in
+  let (tb11, r3) =
+    via_rrlist hr tb10 hq (Npos (XI (XO (XO (XO XH)))))
+      (g (S (S (S (S (S (S (S (S (S (S (S (S (S (S (S (S (S (S (S (S (S (S (S
+        (S (S (S (S (S (S (S (S (S (S (S (S
+        O))))))))))))))))))))))))))))))))))))
+  in
+  let re = r0 :: (r1 :: (r2 :: (r3 :: []))) in
+  let s12 = if filled re then Some (VR re) else None in
+  (tb11,
+  (s0 :: (s1 :: (s2 :: (s3 :: (s4 :: (s5 :: (s6 :: (s7 :: (s8 :: (s9 :: (s10 :: (s11 :: (s12 :: (
+  (g (S (S (S (S (S (S (S (S (S (S (S (S (S (S (S (S (S (S (S (S (S (S (S (S
+    (S (S (S (S (S (S (S (S (S (S (S (S O))))))))))))))))))))))))))))))))))))) :: (
+  (g (S (S (S (S (S (S (S (S (S (S (S (S (S (S (S (S (S (S (S (S (S (S (S (S
+    (S (S (S (S (S (S (S (S (S (S (S (S (S
+    O)))))))))))))))))))))))))))))))))))))) :: ((g (S (S (S (S (S (S (S (S (S
+                                                  (S (S (S (S (S (S (S (S (S
+                                                  (S (S (S (S (S (S (S (S (S
+                                                  (S (S (S (S (S (S (S (S (S
+                                                  (S (S
+                                                  O))))))))))))))))))))))))))))))))))))))) :: [])))))))))))))))))
+
+(** val add_qr : val0 option list -> val0 option -> blk -> blk * bool **)
+
+let add_qr gr st b =
+  let earliest0 = upd_earliest b (nth_o gr O) in
+  let (tb, item) = build_qr b.b_bp gr b.b_tb in
+  let qrs = if filled item then app b.b_qrs ((VR item) :: []) else b.b_qrs in
+  let b' = { b_earliest = earliest0; b_bpi = b.b_bpi; b_bp = b.b_bp;
+    b_stats = (with_stats b.b_stats st); b_tb = tb; b_qrs = qrs; b_aecs =
+    b.b_aecs; b_mms = b.b_mms }
+  in
+  (b', (blk_full b'))
+
+(** val aec_bump : (val0 * n) list -> val0 -> (val0 * n) list **)
+
+let rec aec_bump l k =
+  match l with
+  | [] -> (k, (Npos XH)) :: []
+  | p :: l' ->
+    let (k', c) = p in
+    if val_eqb k' k
+    then (k', (N.add c (Npos XH))) :: l'
+    else (k', c) :: (aec_bump l' k)
+
+(** val add_aec : val0 option list -> val0 option -> blk -> blk * bool **)
+
+let add_aec ga st b =
+  if negb (N.testbit b.b_bp.h_other (Npos XH))
+  then (b, false)
+  else let g = nth_o ga in
+       let (tb, ix) = add_to b.b_tb T_ip (oval (g (S (S (S O))))) in
+       let key = VR ((g O) :: ((g (S O)) :: ((Some (VN
+         ix)) :: ((g (S (S O))) :: ((Some (VN N0)) :: [])))))
+       in
+       let b' = { b_earliest = b.b_earliest; b_bpi = b.b_bpi; b_bp = b.b_bp;
+         b_stats = (with_stats b.b_stats st); b_tb = tb; b_qrs = b.b_qrs;
+         b_aecs = (aec_bump b.b_aecs key); b_mms = b.b_mms }
+       in
+       (b', (blk_full b'))
+
+(** val build_mm : val0 option list -> tables -> tables * val0 option list **)
+
+let build_mm gm tb =
+  let g = nth_o gm in
+  let (tb0, c1) = via tb T_ip (g (S O)) in
+  let (tb1, d0) = via tb0 T_ip (g (S (S (S O)))) in
+  let mmd =
+    d0 :: ((g (S (S (S (S O))))) :: ((g (S (S (S (S (S O)))))) :: ((g (S (S
+                                                                    (S (S (S
+                                                                    (S
+                                                                    O))))))) :: [])))
+  in
+  if filled mmd
+  then let (tb2, ix) = add_to tb1 T_mmd (VR mmd) in
+       let m3 = Some (VN ix) in
+       (tb2, ((g O) :: (c1 :: ((g (S (S O))) :: (m3 :: [])))))
+  else let m3 = None in
+       (tb1, ((g O) :: (c1 :: ((g (S (S O))) :: (m3 :: [])))))
+
+(** val add_mm : val0 option list -> val0 option -> blk -> blk * bool **)
+
+let add_mm gm st b =
+  if negb (N.testbit b.b_bp.h_other N0)
+  then (b, false)
+  else let earliest0 = upd_earliest b (nth_o gm O) in
+       let (tb, item) = build_mm gm b.b_tb in
+       let mms =
+         if filled item then app b.b_mms ((VR item) :: []) else b.b_mms
+       in
+       let b' = { b_earliest = earliest0; b_bpi = b.b_bpi; b_bp = b.b_bp;
+         b_stats = (with_stats b.b_stats st); b_tb = tb; b_qrs = b.b_qrs;
+         b_aecs = b.b_aecs; b_mms = mms }
+       in
+       (b', (blk_full b'))
+
+(** val to_u64 : z -> n **)
+
+let to_u64 z0 =
+  Z.to_N (Z.modulo z0 (Z.of_N two64))
+
+(** val offset_val : ts -> n -> val0 -> val0 **)
+
+let offset_val earliest0 tps tv =
+  match ts_of_val tv with
+  | Some t ->
+    (match get_time_offset t earliest0 (Z.of_N tps) with
+     | TOk z0 -> VN (to_u64 z0)
+     | _ -> VN N0)
+  | None -> VN N0
+
+(** val conv_item : ts -> n -> val0 -> val0 **)
+
+let conv_item earliest0 tps it = match it with
+| VR fs ->
+  (match fs with
+   | [] -> it
+   | o :: rest0 ->
+     (match o with
+      | Some tv -> VR ((Some (offset_val earliest0 tps tv)) :: rest0)
+      | None -> it))
+| _ -> it
+
+(** val aec_val : (val0 * n) -> val0 **)
+
+let aec_val kc =
+  match fst kc with
+  | VR fs ->
+    (match fs with
+     | [] -> VR []
+     | a :: l ->
+       (match l with
+        | [] -> VR (a :: [])
+        | b :: l0 ->
+          (match l0 with
+           | [] -> VR (a :: (b :: []))
+           | c :: l1 ->
+             (match l1 with
+              | [] -> VR (a :: (b :: (c :: [])))
+              | d :: l2 ->
+                (match l2 with
+                 | [] -> VR (a :: (b :: (c :: (d :: []))))
+                 | o :: l3 ->
+                   (match l3 with
+                    | [] ->
+                      VR (a :: (b :: (c :: (d :: ((Some (VN
+                        (snd kc))) :: [])))))
+                    | o0 :: l4 ->
+                      VR (a :: (b :: (c :: (d :: (o :: (o0 :: l4))))))))))))
+  | x -> x
+
+(** val ne_list : val0 list -> val0 option **)
+
+let ne_list l =
+  Some (VL l)
+
+(** val tables_val : tables -> val0 option **)
+
+let tables_val tb =
+  match tb.t_ip with
+  | [] ->
+    (match tb.t_ct with
+     | [] ->
+       (match tb.t_nr with
+        | [] ->
+          (match tb.t_sig with
+           | [] ->
+             (match tb.t_qlist with
+              | [] ->
+                (match tb.t_qrr with
+                 | [] ->
+                   (match tb.t_rrlist with
+                    | [] ->
+                      (match tb.t_rr with
+                       | [] ->
+                         (match tb.t_mmd with
+                          | [] -> None
+                          | _ :: _ ->
+                            Some (VR
+                              ((ne_list tb.t_ip) :: ((ne_list tb.t_ct) :: (
+                              (ne_list tb.t_nr) :: ((ne_list tb.t_sig) :: (
+                              (ne_list tb.t_qlist) :: ((ne_list tb.t_qrr) :: (
+                              (ne_list tb.t_rrlist) :: ((ne_list tb.t_rr) :: (
+                              (ne_list tb.t_mmd) :: [])))))))))))
+                       | _ :: _ ->
+                         Some (VR
+                           ((ne_list tb.t_ip) :: ((ne_list tb.t_ct) :: (
+                           (ne_list tb.t_nr) :: ((ne_list tb.t_sig) :: (
+                           (ne_list tb.t_qlist) :: ((ne_list tb.t_qrr) :: (
+                           (ne_list tb.t_rrlist) :: ((ne_list tb.t_rr) :: (
+                           (ne_list tb.t_mmd) :: [])))))))))))
+                    | _ :: _ ->
+                      Some (VR
+                        ((ne_list tb.t_ip) :: ((ne_list tb.t_ct) :: (
+                        (ne_list tb.t_nr) :: ((ne_list tb.t_sig) :: (
+                        (ne_list tb.t_qlist) :: ((ne_list tb.t_qrr) :: (
+                        (ne_list tb.t_rrlist) :: ((ne_list tb.t_rr) :: (
+                        (ne_list tb.t_mmd) :: [])))))))))))
+                 | _ :: _ ->
+                   Some (VR
+                     ((ne_list tb.t_ip) :: ((ne_list tb.t_ct) :: ((ne_list
+                                                                    tb.t_nr) :: (
+                     (ne_list tb.t_sig) :: ((ne_list tb.t_qlist) :: (
+                     (ne_list tb.t_qrr) :: ((ne_list tb.t_rrlist) :: (
+                     (ne_list tb.t_rr) :: ((ne_list tb.t_mmd) :: [])))))))))))
+              | _ :: _ ->
+                Some (VR
+                  ((ne_list tb.t_ip) :: ((ne_list tb.t_ct) :: ((ne_list
+                                                                 tb.t_nr) :: (
+                  (ne_list tb.t_sig) :: ((ne_list tb.t_qlist) :: ((ne_list
+                                                                    tb.t_qrr) :: (
+                  (ne_list tb.t_rrlist) :: ((ne_list tb.t_rr) :: ((ne_list
+                                                                    tb.t_mmd) :: [])))))))))))
+           | _ :: _ ->
+             Some (VR
+               ((ne_list tb.t_ip) :: ((ne_list tb.t_ct) :: ((ne_list tb.t_nr) :: (
+               (ne_list tb.t_sig) :: ((ne_list tb.t_qlist) :: ((ne_list
+                                                                 tb.t_qrr) :: (
+               (ne_list tb.t_rrlist) :: ((ne_list tb.t_rr) :: ((ne_list
+                                                                 tb.t_mmd) :: [])))))))))))
+        | _ :: _ ->
+          Some (VR
+            ((ne_list tb.t_ip) :: ((ne_list tb.t_ct) :: ((ne_list tb.t_nr) :: (
+            (ne_list tb.t_sig) :: ((ne_list tb.t_qlist) :: ((ne_list tb.t_qrr) :: (
+            (ne_list tb.t_rrlist) :: ((ne_list tb.t_rr) :: ((ne_list tb.t_mmd) :: [])))))))))))
+     | _ :: _ ->
+       Some (VR
+         ((ne_list tb.t_ip) :: ((ne_list tb.t_ct) :: ((ne_list tb.t_nr) :: (
+         (ne_list tb.t_sig) :: ((ne_list tb.t_qlist) :: ((ne_list tb.t_qrr) :: (
+         (ne_list tb.t_rrlist) :: ((ne_list tb.t_rr) :: ((ne_list tb.t_mmd) :: [])))))))))))
+  | _ :: _ ->
+    Some (VR
+      ((ne_list tb.t_ip) :: ((ne_list tb.t_ct) :: ((ne_list tb.t_nr) :: (
+      (ne_list tb.t_sig) :: ((ne_list tb.t_qlist) :: ((ne_list tb.t_qrr) :: (
+      (ne_list tb.t_rrlist) :: ((ne_list tb.t_rr) :: ((ne_list tb.t_mmd) :: []))))))))))
+
+(** val ts_val : ts -> val0 **)
+
+let ts_val t =
+  VL ((VN (Z.to_N t.secs)) :: ((VN (Z.to_N t.ticks)) :: []))
+
+(** val blk_val : blk -> val0 **)
+
+let blk_val b =
+  let tps = b.b_bp.bp_tps in
+  VR ((Some (VR ((Some (ts_val b.b_earliest)) :: ((Some (VN
+  b.b_bpi)) :: [])))) :: (b.b_stats :: ((tables_val b.b_tb) :: ((ne_list
+                                                                  (map
+                                                                    (conv_item
+                                                                    b.b_earliest
+                                                                    tps)
+                                                                    b.b_qrs)) :: (
+  (ne_list (map aec_val b.b_aecs)) :: ((ne_list
+                                         (map (conv_item b.b_earliest tps)
+                                           b.b_mms)) :: []))))))
+
+type exporter = { x_major : val0 option; x_minor : val0 option;
+                  x_private : val0 option; x_params : val0 list; x_blk : 
+                  blk; x_active : n; x_written : n; x_enc : enc;
+                  x_closed : n list list; x_done : blk list }
+
+(** val preamble_val : exporter -> val0 **)
+
+let preamble_val x =
+  VR (x.x_major :: (x.x_minor :: (x.x_private :: ((Some (VL
+    x.x_params)) :: []))))
+
+(** val nth_bp : val0 list -> n -> bparams **)
+
+let nth_bp ps i =
+  bp_of_val (nth (N.to_nat i) ps (VR []))
+
+(** val x_new : val0 -> exporter **)
+
+let x_new = function
+| VR fs ->
+  (match fs with
+   | [] ->
+     { x_major = None; x_minor = None; x_private = None; x_params = [];
+       x_blk =
+       (blk_new { bp_tps = N0; bp_max = N0; h_qr = N0; h_sig = N0; h_rr = N0;
+         h_other = N0 } N0); x_active = N0; x_written = N0; x_enc = enc_init;
+       x_closed = []; x_done = [] }
+   | ma :: l ->
+     (match l with
+      | [] ->
+        { x_major = None; x_minor = None; x_private = None; x_params = [];
+          x_blk =
+          (blk_new { bp_tps = N0; bp_max = N0; h_qr = N0; h_sig = N0; h_rr =
+            N0; h_other = N0 } N0); x_active = N0; x_written = N0; x_enc =
+          enc_init; x_closed = []; x_done = [] }
+      | mi :: l0 ->
+        (match l0 with
+         | [] ->
+           { x_major = None; x_minor = None; x_private = None; x_params = [];
+             x_blk =
+             (blk_new { bp_tps = N0; bp_max = N0; h_qr = N0; h_sig = N0;
+               h_rr = N0; h_other = N0 } N0); x_active = N0; x_written = N0;
+             x_enc = enc_init; x_closed = []; x_done = [] }
+         | pv :: l1 ->
+           (match l1 with
+            | [] ->
+              { x_major = None; x_minor = None; x_private = None; x_params =
+                []; x_blk =
+                (blk_new { bp_tps = N0; bp_max = N0; h_qr = N0; h_sig = N0;
+                  h_rr = N0; h_other = N0 } N0); x_active = N0; x_written =
+                N0; x_enc = enc_init; x_closed = []; x_done = [] }
+            | o :: l2 ->
+              (match o with
+               | Some v ->
+                 (match v with
+                  | VL ps ->
+                    (match l2 with
+                     | [] ->
+                       { x_major = ma; x_minor = mi; x_private = pv;
+                         x_params = ps; x_blk = (blk_new (nth_bp ps N0) N0);
+                         x_active = N0; x_written = N0; x_enc = enc_init;
+                         x_closed = []; x_done = [] }
+                     | _ :: _ ->
+                       { x_major = None; x_minor = None; x_private = None;
+                         x_params = []; x_blk =
+                         (blk_new { bp_tps = N0; bp_max = N0; h_qr = N0;
+                           h_sig = N0; h_rr = N0; h_other = N0 } N0);
+                         x_active = N0; x_written = N0; x_enc = enc_init;
+                         x_closed = []; x_done = [] })
+                  | _ ->
+                    { x_major = None; x_minor = None; x_private = None;
+                      x_params = []; x_blk =
+                      (blk_new { bp_tps = N0; bp_max = N0; h_qr = N0; h_sig =
+                        N0; h_rr = N0; h_other = N0 } N0); x_active = N0;
+                      x_written = N0; x_enc = enc_init; x_closed = [];
+                      x_done = [] })
+               | None ->
+                 { x_major = None; x_minor = None; x_private = None;
+                   x_params = []; x_blk =
+                   (blk_new { bp_tps = N0; bp_max = N0; h_qr = N0; h_sig =
+                     N0; h_rr = N0; h_other = N0 } N0); x_active = N0;
+                   x_written = N0; x_enc = enc_init; x_closed = []; x_done =
+                   [] })))))
+| _ ->
+  { x_major = None; x_minor = None; x_private = None; x_params = []; x_blk =
+    (blk_new { bp_tps = N0; bp_max = N0; h_qr = N0; h_sig = N0; h_rr = N0;
+      h_other = N0 } N0); x_active = N0; x_written = N0; x_enc = enc_init;
+    x_closed = []; x_done = [] }
+
+(** val enc_run : enc -> eop list -> enc * n **)
+
+let enc_run e ops =
+  let (e', rs) = eruns e ops in (e', (fold_left N.add rs N0))
+
+(** val cdns_text : n list **)
+
+let cdns_text =
+  (Npos (XI (XI (XO (XO (XO (XO XH))))))) :: ((Npos (XI (XO (XI (XI (XO
+    XH)))))) :: ((Npos (XO (XO (XI (XO (XO (XO XH))))))) :: ((Npos (XO (XI
+    (XI (XI (XO (XO XH))))))) :: ((Npos (XI (XI (XO (XO (XI (XO
+    XH))))))) :: []))))
+
+(** val header_ops : exporter -> eop list **)
+
+let header_ops x =
+  app ((OArr (Npos (XI XH))) :: ((OText cdns_text) :: []))
+    (app (write_val filePreamble (preamble_val x)) (OIndefArr :: []))
+
+(** val with_enc : exporter -> enc -> n -> exporter **)
+
+let with_enc x e w =
+  { x_major = x.x_major; x_minor = x.x_minor; x_private = x.x_private;
+    x_params = x.x_params; x_blk = x.x_blk; x_active = x.x_active;
+    x_written = w; x_enc = e; x_closed = x.x_closed; x_done = x.x_done }
+
+(** val with_blk : exporter -> blk -> exporter **)
+
+let with_blk x b =
+  { x_major = x.x_major; x_minor = x.x_minor; x_private = x.x_private;
+    x_params = x.x_params; x_blk = b; x_active = x.x_active; x_written =
+    x.x_written; x_enc = x.x_enc; x_closed = x.x_closed; x_done = x.x_done }
+
+(** val write_block_ext : exporter -> blk -> exporter * n **)
+
+let write_block_ext x b =
+  if N.eqb (item_count b) N0
+  then (x, N0)
+  else let ops =
+         app (if N.eqb x.x_written N0 then header_ops x else [])
+           (write_val block (blk_val b))
+       in
+       let (e', r) = enc_run x.x_enc ops in
+       let x' = with_enc x e' (N.add x.x_written (Npos XH)) in
+       ({ x_major = x'.x_major; x_minor = x'.x_minor; x_private =
+       x'.x_private; x_params = x'.x_params; x_blk = x'.x_blk; x_active =
+       x'.x_active; x_written = x'.x_written; x_enc = x'.x_enc; x_closed =
+       x'.x_closed; x_done = (app x.x_done (b :: [])) }, r)
+
+(** val write_block : exporter -> exporter * n **)
+
+let write_block x =
+  let (x1, r) = write_block_ext x x.x_blk in
+  let b = blk_clear x1.x_blk in
+  let (b', _) = blk_set_bp b (nth_bp x1.x_params x1.x_active) x1.x_active in
+  ((with_blk x1 b'), r)
+
+(** val buffer : (blk -> blk * bool) -> exporter -> exporter * n **)
+
+let buffer add0 x =
+  let (b', full) = add0 x.x_blk in
+  let x1 = with_blk x b' in if full then write_block x1 else (x1, N0)
+
+(** val buffer_qr :
+    val0 option list -> val0 option -> exporter -> exporter * n **)
+
+let buffer_qr gr st =
+  buffer (add_qr gr st)
+
+(** val buffer_aec :
+    val0 option list -> val0 option -> exporter -> exporter * n **)
+
+let buffer_aec ga st =
+  buffer (add_aec ga st)
+
+(** val buffer_mm :
+    val0 option list -> val0 option -> exporter -> exporter * n **)
+
+let buffer_mm gm st =
+  buffer (add_mm gm st)
+
+(** val rotate : bool -> exporter -> exporter * n **)
+
+let rotate export x =
+  let (x1, r1) = if export then write_block x else (x, N0) in
+  let (e2, r2) =
+    if N.ltb N0 x1.x_written
+    then enc_run x1.x_enc (OBreak :: [])
+    else (x1.x_enc, N0)
+  in
+  let out = stream (flush e2) in
+  ({ x_major = x1.x_major; x_minor = x1.x_minor; x_private = x1.x_private;
+  x_params = x1.x_params; x_blk = x1.x_blk; x_active = x1.x_active;
+  x_written = N0; x_enc = enc_init; x_closed = (out :: x1.x_closed); x_done =
+  x1.x_done }, (N.add r1 r2))
+
+(** val destroy : exporter -> n list **)
+
+let destroy x =
+  let (e2, _) =
+    if N.ltb N0 x.x_written
+    then enc_run x.x_enc (OBreak :: [])
+    else (x.x_enc, N0)
+  in
+  stream (flush e2)
+
+(** val add_block_parameters : val0 -> exporter -> exporter * n **)
+
+let add_block_parameters bp x =
+  ({ x_major = x.x_major; x_minor = x.x_minor; x_private = x.x_private;
+    x_params = (app x.x_params (bp :: [])); x_blk = x.x_blk; x_active =
+    x.x_active; x_written = x.x_written; x_enc = x.x_enc; x_closed =
+    x.x_closed; x_done = x.x_done }, (N.of_nat (length x.x_params)))
+
+(** val set_active : n -> exporter -> exporter * bool **)
+
+let set_active i x =
+  if N.leb (N.of_nat (length x.x_params)) i
+  then (x, false)
+  else ({ x_major = x.x_major; x_minor = x.x_minor; x_private = x.x_private;
+         x_params = x.x_params; x_blk = x.x_blk; x_active = i; x_written =
+         x.x_written; x_enc = x.x_enc; x_closed = x.x_closed; x_done =
+         x.x_done }, true)
+
+(** val upper : n -> n **)
+
+let upper b =
+  if (&&) (N.leb (Npos (XI (XO (XO (XO (XO (XI XH))))))) b)
+       (N.leb b (Npos (XO (XI (XO (XI (XI (XI XH))))))))
+  then N.sub b (Npos (XO (XO (XO (XO (XO XH))))))
+  else b
+
+(** val read_file_header : nat -> (val0 * (n * bool)) prog **)
+
+let read_file_header g =
+  bind read_array_start (fun st ->
+    if (&&) (negb (N.eqb (fst st) (Npos (XI XH)))) (negb (snd st))
+    then Throw EDec
+    else bind (read_textstring g) (fun id ->
+           if negb (list_eqb N.eqb (map upper id) cdns_text)
+           then Throw EDec
+           else bind (read_val g filePreamble) (fun pre ->
+                  bind read_array_start (fun bl -> Ret (pre, bl)))))
+
+type rblock = { r_earliest : val0; r_bpi : val0 option; r_bp : bparams;
+                r_stats : val0 option; r_tables : val0 option list;
+                r_qrs : val0 list; r_aecs : (val0 * n) list; r_mms : 
+                val0 list }
+
+(** val params_of : val0 -> val0 list **)
+
+let params_of = function
+| VR fs ->
+  (match fs with
+   | [] -> []
+   | _ :: l ->
+     (match l with
+      | [] -> []
+      | _ :: l0 ->
+        (match l0 with
+         | [] -> []
+         | _ :: l1 ->
+           (match l1 with
+            | [] -> []
+            | o2 :: l2 ->
+              (match o2 with
+               | Some v ->
+                 (match v with
+                  | VL ps -> (match l2 with
+                              | [] -> ps
+                              | _ :: _ -> [])
+                  | _ -> [])
+               | None -> [])))))
+| _ -> []
+
+(** val resolve_time : ts -> n -> val0 -> val0 option **)
+
+let resolve_time earliest0 tps it = match it with
+| VR fs ->
+  (match fs with
+   | [] -> Some it
+   | o :: rest0 ->
+     (match o with
+      | Some v ->
+        (match v with
+         | VN off ->
+           (match add_time_offset earliest0 (to_i0 off) (Z.of_N tps) with
+            | TOk t -> Some (VR ((Some (ts_val t)) :: rest0))
+            | _ -> None)
+         | _ -> Some it)
+      | None -> Some it))
+| _ -> Some it
+
+(** val resolve_all : ts -> n -> val0 list -> val0 list option **)
+
+let rec resolve_all earliest0 tps = function
+| [] -> Some []
+| it :: l' ->
+  (match resolve_time earliest0 tps it with
+   | Some a ->
+     (match resolve_all earliest0 tps l' with
+      | Some b -> Some (a :: b)
+      | None -> None)
+   | None -> None)
+
+(** val aec_merge : (val0 * n) list -> val0 -> n -> (val0 * n) list **)
+
+let rec aec_merge l k c =
+  match l with
+  | [] -> (k, c) :: []
+  | p :: l' ->
+    let (k', c') = p in
+    if val_eqb k' k
+    then (k', (N.modulo (N.add c' c) two64)) :: l'
+    else (k', c') :: (aec_merge l' k c)
+
+(** val aec_key : val0 -> val0 * n **)
+
+let aec_key a = match a with
+| VR fs ->
+  (match fs with
+   | [] -> (a, N0)
+   | t :: l ->
+     (match l with
+      | [] -> (a, N0)
+      | c :: l0 ->
+        (match l0 with
+         | [] -> (a, N0)
+         | i :: l1 ->
+           (match l1 with
+            | [] -> (a, N0)
+            | f :: l2 ->
+              (match l2 with
+               | [] -> (a, N0)
+               | o :: l3 ->
+                 (match o with
+                  | Some v ->
+                    (match v with
+                     | VN n0 ->
+                       (match l3 with
+                        | [] ->
+                          ((VR (t :: (c :: (i :: (f :: ((Some (VN
+                            N0)) :: [])))))), n0)
+                        | _ :: _ -> (a, N0))
+                     | _ -> (a, N0))
+                  | None -> (a, N0)))))))
+| _ -> (a, N0)
+
+(** val lst : val0 option -> val0 list **)
+
+let lst = function
+| Some v -> (match v with
+             | VL l -> l
+             | _ -> [])
+| None -> []
+
+(** val block_of_val : val0 list -> val0 -> rblock prog **)
+
+let block_of_val params = function
+| VR fs ->
+  (match fs with
+   | [] -> Throw EDec
+   | o :: l ->
+     (match o with
+      | Some v0 ->
+        (match v0 with
+         | VR fs0 ->
+           (match fs0 with
+            | [] -> Throw EDec
+            | o0 :: l0 ->
+              (match o0 with
+               | Some et ->
+                 (match l0 with
+                  | [] -> Throw EDec
+                  | bpi :: l1 ->
+                    (match l1 with
+                     | [] ->
+                       (match l with
+                        | [] -> Throw EDec
+                        | stats :: l2 ->
+                          (match l2 with
+                           | [] -> Throw EDec
+                           | tbs :: l3 ->
+                             (match l3 with
+                              | [] -> Throw EDec
+                              | qrs :: l4 ->
+                                (match l4 with
+                                 | [] -> Throw EDec
+                                 | aecs :: l5 ->
+                                   (match l5 with
+                                    | [] -> Throw EDec
+                                    | mms :: l6 ->
+                                      (match l6 with
+                                       | [] ->
+                                         (match params with
+                                          | [] -> Throw EDec
+                                          | _ :: _ ->
+                                            let idx =
+                                              match bpi with
+                                              | Some v1 ->
+                                                (match v1 with
+                                                 | VN i -> i
+                                                 | _ -> N0)
+                                              | None -> N0
+                                            in
+                                            if N.leb
+                                                 (N.of_nat (length params))
+                                                 idx
+                                            then Throw EDec
+                                            else let bp = nth_bp params idx in
+                                                 (match ts_of_val et with
+                                                  | Some e ->
+                                                    (match resolve_all e
+                                                             bp.bp_tps
+                                                             (lst qrs) with
+                                                     | Some q ->
+                                                       (match resolve_all e
+                                                                bp.bp_tps
+                                                                (lst mms) with
+                                                        | Some m ->
+                                                          Ret { r_earliest =
+                                                            et; r_bpi = bpi;
+                                                            r_bp = bp;
+                                                            r_stats = stats;
+                                                            r_tables =
+                                                            (match tbs with
+                                                             | Some v1 ->
+                                                               (match v1 with
+                                                                | VR l7 -> l7
+                                                                | _ -> [])
+                                                             | None -> []);
+                                                            r_qrs = q;
+                                                            r_aecs =
+                                                            (fold_left
+                                                              (fun acc a ->
+                                                              let (k, c) =
+                                                                aec_key a
+                                                              in
+                                                              aec_merge acc k
+                                                                c) (lst aecs)
+                                                              []); r_mms = m }
+                                                        | None -> Throw ERun)
+                                                     | None -> Throw ERun)
+                                                  | None -> Throw EDec))
+                                       | _ :: _ -> Throw EDec))))))
+                     | _ :: _ -> Throw EDec))
+               | None -> Throw EDec))
+         | _ -> Throw EDec)
+      | None -> Throw EDec))
+| _ -> Throw EDec
+
+(** val read_block_body : nat -> val0 list -> rblock prog **)
+
+let read_block_body g params =
+  bind (read_val g block) (fun v -> block_of_val params v)
+
+type rstate = { rs_pre : val0; rs_count : n; rs_read : n; rs_indef : bool }
+
+(** val reader_open : nat -> rstate prog **)
+
+let reader_open g =
+  bind (read_file_header g) (fun h -> Ret { rs_pre = (fst h); rs_count =
+    (fst (snd h)); rs_read = N0; rs_indef = (snd (snd h)) })
+
+(** val reader_next : nat -> rstate -> (rblock option * rstate) prog **)
+
+let reader_next g s =
+  if s.rs_indef
+  then bind peek_type (fun pk ->
+         match pk with
+         | Some _ ->
+           bind (read_block_body g (params_of s.rs_pre)) (fun b -> Ret ((Some
+             b), { rs_pre = s.rs_pre; rs_count = s.rs_count; rs_read =
+             (N.add s.rs_read (Npos XH)); rs_indef = true }))
+         | None ->
+           bind read_break (fun _ -> Ret (None, { rs_pre = s.rs_pre;
+             rs_count = s.rs_read; rs_read = s.rs_read; rs_indef = false })))
+  else if N.eqb s.rs_read s.rs_count
+       then Ret (None, s)
+       else bind (read_block_body g (params_of s.rs_pre)) (fun b -> Ret
+              ((Some b), { rs_pre = s.rs_pre; rs_count = s.rs_count;
+              rs_read = (N.add s.rs_read (Npos XH)); rs_indef = false }))
+
+(** val read_blocks :
+    nat -> nat -> rstate -> rblock list -> rblock list prog **)
+
+let rec read_blocks g fuel s racc =
+  match fuel with
+  | O -> Throw EFuel
+  | S f ->
+    bind (reader_next g s) (fun r ->
+      match fst r with
+      | Some b -> read_blocks g f (snd r) (b :: racc)
+      | None -> Ret (frev racc))
+
+(** val read_file : nat -> (val0 * rblock list) prog **)
+
+let read_file g =
+  bind (reader_open g) (fun s ->
+    bind (read_blocks g g s []) (fun bs -> Ret (s.rs_pre, bs)))
+
+(** val tl_get :
+    val0 option list -> nat -> val0 option -> val0 option option **)
+
+let tl_get tbs i = function
+| Some v ->
+  (match v with
+   | VN n0 ->
+     (match nth_error (lst (nth_o tbs i)) (N.to_nat n0) with
+      | Some v0 -> Some (Some v0)
+      | None -> None)
+   | _ -> None)
+| None -> Some None
+
+(** val obind : 'a1 option -> ('a1 -> 'a2 option) -> 'a2 option **)
+
+let obind o f =
+  match o with
+  | Some a -> f a
+  | None -> None
+
+(** val fields_of : val0 option -> val0 option list **)
+
+let fields_of = function
+| Some v -> (match v with
+             | VR l -> l
+             | _ -> [])
+| None -> []
+
+(** val gen_qs : val0 option list -> val0 list -> val0 list option **)
+
+let rec gen_qs tbs = function
+| [] -> Some []
+| ix :: r ->
+  obind (tl_get tbs (S (S (S (S (S O))))) (Some ix)) (fun q ->
+    let qf = fields_of q in
+    obind (tl_get tbs (S (S O)) (nth_o qf O)) (fun nm ->
+      obind (tl_get tbs (S O) (nth_o qf (S O))) (fun ct ->
+        obind (gen_qs tbs r) (fun rest0 -> Some ((VR
+          (nm :: (ct :: (None :: (None :: []))))) :: rest0)))))
+
+(** val gen_rrs : val0 option list -> val0 list -> val0 list option **)
+
+let rec gen_rrs tbs = function
+| [] -> Some []
+| ix :: r ->
+  obind (tl_get tbs (S (S (S (S (S (S (S O))))))) (Some ix)) (fun q ->
+    let qf = fields_of q in
+    obind (tl_get tbs (S (S O)) (nth_o qf O)) (fun nm ->
+      obind (tl_get tbs (S O) (nth_o qf (S O))) (fun ct ->
+        obind (tl_get tbs (S (S O)) (nth_o qf (S (S (S O))))) (fun rd ->
+          obind (gen_rrs tbs r) (fun rest0 -> Some ((VR
+            (nm :: (ct :: ((nth_o qf (S (S O))) :: (rd :: []))))) :: rest0))))))
+
+(** val gen_qlist : val0 option list -> val0 option -> val0 option option **)
+
+let gen_qlist tbs ix = match ix with
+| Some _ ->
+  obind (tl_get tbs (S (S (S (S O)))) ix) (fun l ->
+    obind (gen_qs tbs (lst l)) (fun qs -> Some (Some (VL qs))))
+| None -> Some None
+
+(** val gen_rrlist : val0 option list -> val0 option -> val0 option option **)
+
+let gen_rrlist tbs ix = match ix with
+| Some _ ->
+  obind (tl_get tbs (S (S (S (S (S (S O)))))) ix) (fun l ->
+    obind (gen_rrs tbs (lst l)) (fun rs -> Some (Some (VL rs))))
+| None -> Some None
+
+(** val gen_qr : val0 option list -> val0 -> val0 option **)
+
+let gen_qr tbs it =
+  let s = nth_o (fields_of (Some it)) in
+  obind (tl_get tbs O (s (S O))) (fun g1 ->
+    obind (tl_get tbs (S (S (S O))) (s (S (S (S (S O)))))) (fun sg ->
+      let q = nth_o (fields_of sg) in
+      obind (tl_get tbs O (q O)) (fun g4 ->
+        obind (tl_get tbs (S O) (q (S (S (S (S (S (S (S (S O))))))))))
+          (fun g12 ->
+          obind
+            (tl_get tbs (S (S O))
+              (q (S (S (S (S (S (S (S (S (S (S (S (S (S (S (S
+                O))))))))))))))))) (fun g19 ->
+            obind (tl_get tbs (S (S O)) (s (S (S (S (S (S (S (S O)))))))))
+              (fun g23 ->
+              let rp =
+                nth_o
+                  (fields_of (s (S (S (S (S (S (S (S (S (S (S O))))))))))))
+              in
+              obind (tl_get tbs (S (S O)) (rp O)) (fun g26 ->
+                let qe =
+                  nth_o
+                    (fields_of
+                      (s (S (S (S (S (S (S (S (S (S (S (S O)))))))))))))
+                in
+                obind (gen_qlist tbs (qe O)) (fun g28 ->
+                  obind (gen_rrlist tbs (qe (S O))) (fun g29 ->
+                    obind (gen_rrlist tbs (qe (S (S O)))) (fun g30 ->
+                      obind (gen_rrlist tbs (qe (S (S (S O))))) (fun g31 ->
+                        let re =
+                          nth_o
+                            (fields_of
+                              (s (S (S (S (S (S (S (S (S (S (S (S (S
+                                O))))))))))))))
+                        in
+                        obind (gen_qlist tbs (re O)) (fun g32 ->
+                          obind (gen_rrlist tbs (re (S O))) (fun g33 ->
+                            obind (gen_rrlist tbs (re (S (S O)))) (fun g34 ->
+                              obind (gen_rrlist tbs (re (S (S (S O)))))
+                                (fun g35 -> Some (VR
+                                ((s O) :: (g1 :: ((s (S (S O))) :: ((s (S (S
+                                                                    (S O)))) :: (g4 :: (
+                                (q (S O)) :: ((q (S (S O))) :: ((q (S (S (S
+                                                                  O)))) :: (
+                                (q (S (S (S (S O))))) :: ((q (S (S (S (S (S
+                                                            O)))))) :: (
+                                (q (S (S (S (S (S (S O))))))) :: ((q (S (S (S
+                                                                    (S (S (S
+                                                                    (S
+                                                                    O)))))))) :: (g12 :: (
+                                (q (S (S (S (S (S (S (S (S (S O)))))))))) :: (
+                                (q (S (S (S (S (S (S (S (S (S (S O))))))))))) :: (
+                                (q (S (S (S (S (S (S (S (S (S (S (S
+                                  O)))))))))))) :: ((q (S (S (S (S (S (S (S
+                                                      (S (S (S (S (S
+                                                      O))))))))))))) :: (
+                                (q (S (S (S (S (S (S (S (S (S (S (S (S (S
+                                  O)))))))))))))) :: ((q (S (S (S (S (S (S (S
+                                                        (S (S (S (S (S (S (S
+                                                        O))))))))))))))) :: (g19 :: (
+                                (q (S (S (S (S (S (S (S (S (S (S (S (S (S (S
+                                  (S (S O))))))))))))))))) :: ((s (S (S (S (S
+                                                                 (S O)))))) :: (
+                                (s (S (S (S (S (S (S O))))))) :: (g23 :: (
+                                (s (S (S (S (S (S (S (S (S O))))))))) :: (
+                                (s (S (S (S (S (S (S (S (S (S O)))))))))) :: (g26 :: (
+                                (rp (S O)) :: (g28 :: (g29 :: (g30 :: (g31 :: (g32 :: (g33 :: (g34 :: (g35 :: (
+                                (s (S (S (S (S (S (S (S (S (S (S (S (S (S
+                                  O)))))))))))))) :: ((s (S (S (S (S (S (S (S
+                                                        (S (S (S (S (S (S (S
+                                                        O))))))))))))))) :: (
+                                (s (S (S (S (S (S (S (S (S (S (S (S (S (S (S
+                                  (S O)))))))))))))))) :: [])))))))))))))))))))))))))))))))))))))))))))))))))))))))
+
+(** val gen_aec : val0 option list -> (val0 * n) -> val0 option **)
+
+let gen_aec tbs kc =
+  let k = nth_o (fields_of (Some (fst kc))) in
+  obind (tl_get tbs O (k (S (S O)))) (fun ip ->
+    match ip with
+    | Some _ ->
+      Some (VR ((k O) :: ((k (S O)) :: ((k (S (S (S O)))) :: (ip :: ((Some
+        (VN (snd kc))) :: []))))))
+    | None -> None)
+
+(** val gen_mm : val0 option list -> val0 -> val0 option **)
+
+let gen_mm tbs it =
+  let s = nth_o (fields_of (Some it)) in
+  obind (tl_get tbs O (s (S O))) (fun g1 ->
+    obind (tl_get tbs (S (S (S (S (S (S (S (S O)))))))) (s (S (S (S O)))))
+      (fun md ->
+      let d = nth_o (fields_of md) in
+      obind (tl_get tbs O (d O)) (fun g3 -> Some (VR
+        ((s O) :: (g1 :: ((s (S (S O))) :: (g3 :: ((d (S O)) :: ((d (S (S O))) :: (
+        (d (S (S (S O)))) :: [])))))))))))
